@@ -337,11 +337,16 @@ def create (cap : Nat) : DM Unit := do
   if version ≠ u8 SX127x_VERSION then fail SX127X_ERR_INVALID_VERSION else
   setH (freshHandle cap)
 
+/-- `sx127x_set_active_modem`: the packet in progress belongs to the modem that is left -/
+def setActiveModem (opmod modulation : Nat) (h : Handle) : Handle :=
+  let h := if (h.activeModem = SX127x_MODULATION_LORA) ≠ (modulation = SX127x_MODULATION_LORA) then resetState h else h
+  { h with activeModem := modulation, opmod := opmod }
+
 /-- `sx127x_set_opmod` -/
 def setOpmod (opmod modulation : Nat) : DM Unit := do
   let finish : DM Unit := do
     swrite REGOPMODE [u8 opmod ||| u8 modulation]
-    modH fun h => { h with activeModem := modulation, opmod := opmod }
+    modH (setActiveModem opmod modulation)
   if modulation = SX127x_MODULATION_LORA then do
     if opmod = SX127x_MODE_RX_CONT ∨ opmod = SX127x_MODE_RX_SINGLE then
       swrite REGDIOMAPPING1 [u8 (SX127x_DIO0_RX_DONE ||| SX127x_DIO1_RXTIMEOUT ||| SX127x_DIO2_FHSS_CHANGE_CHANNEL ||| SX127x_DIO3_CAD_DONE)]
@@ -361,7 +366,7 @@ def setOpmod (opmod modulation : Nat) : DM Unit := do
       swrite REGDIOMAPPING1 [u8 (SX127x_FSK_DIO0_PACKET_SENT ||| SX127x_FSK_DIO1_FIFO_LEVEL ||| SX127x_FSK_DIO2_FIFO_FULL ||| SX127x_FSK_DIO3_FIFO_EMPTY)]
       swrite REGFIFOTHRESH [u8 (TX_START_CONDITION_FIFO_EMPTY ||| HALF_MAX_FIFO_THRESHOLD)]
       swrite REGSEQCONFIG1 [0x90]
-      modH fun h => { h with activeModem := modulation, opmod := opmod }
+      modH (setActiveModem opmod modulation)
     else finish
   else fail SX127X_ERR_INVALID_ARG
 
